@@ -19,7 +19,7 @@ FIELD_OWNER = {
     "extra_event": "C13", "missing_event": "C13", "stopped": "C13", "advance": "C13",
     "vars": "C03", "scan_count": "C03", "match_count": "C03", "final_vars": "C03",
     "final_match_count": "C03", "final_scan_count": "C03", "printed": "C03", "final_printed": "C03",
-    "valid": "C04", "final_valid": "C04", "final_unmatched": "C15",
+    "valid": "C04", "final_valid": "C04", "final_unmatched": "C15", "final_lines": "C06", "headers": "C06",
 }
 
 # known findings that are modelled as named deviations of Eval.tla: finding id -> deviation name
